@@ -29,6 +29,12 @@ Signatures (each is a predicate over pattern tree, subject, flags, engine answer
         repeat x{m,n} (m > 1 or n > 1) under two or more enclosing iterations, or an x{0} inside an expanded repeat,
         and the engines' answer is earlier or longer than the reference answer (colliding position numbers only add paths).  In this class the other signatures are
         judged relative to the engines' own answer (the automaton TRE built cannot be predicted by `tre_view`).
+  tre-negated-bracket-overlap (both engines; tre-parse.c tre_parse_bracket) the engines' answer equals the reference
+        answer for the pattern whose negated brackets are replaced by the literal ranges TRE really builds
+        (`tre_negated_set`: items + IGNORECASE counterparts sorted by lower bound; on an overlapping item only
+        curr_max is advanced, so the next gap starts inside an excluded item).
+  tre-copy-neg-classes   (both engines; tre-compile.c tre_copy_ast) as above, and additionally the negated named
+        classes of a bracket are dropped inside every repeat that TRE expands into copies.
   pa-later-start         (parallel matcher only; tre-match-pa.c "found better match" branch lacks the
         `tags[0] <= match_tags[0]` guard) engine returns a genuine match [st2,e2) of TRE's automaton with
         st < st2 < (shortest match end from st) and e2 >= the leftmost-longest end.
@@ -46,14 +52,29 @@ from .. import common as C
 EMP, ANY, BOL, EOL, NONE = ('emp',), ('any',), ('bol',), ('eol',), ('none',)
 
 
+CCLASS = {
+    'alpha': str.isalpha, 'digit': str.isdigit, 'upper': str.isupper, 'lower': str.islower, 'alnum': str.isalnum,
+}
+
+
 def cls(neg, spec):
+    """bracket body text -> ('cls', neg, items); items: ('c', ch) | ('r', lo, hi) | ('n', classname)"""
     items, i = [], 0
     while i < len(spec):
-        if i + 2 < len(spec) and spec[i + 1] == '-':
+        if spec.startswith('[:', i):
+            j = spec.index(':]', i)
+            name = spec[i + 2:j]
+            if name not in CCLASS: raise ValueError("ECTYPE")
+            items.append(('n', name)); i = j + 2
+        elif i + 2 < len(spec) and spec[i + 1] == '-' and not spec.startswith('[:', i + 2):
             items.append(('r', spec[i], spec[i + 2])); i += 3
         else:
             items.append(('c', spec[i])); i += 1
     return ('cls', neg, tuple(items))
+
+
+def show_item(x):
+    return x[1] if x[0] == 'c' else x[1] + '-' + x[2] if x[0] == 'r' else '[:' + x[1] + ':]'
 
 
 def _prec(t):
@@ -70,7 +91,7 @@ def show(t):
     if k == 'eol': return '$'
     if k == 'emp': return ''
     if k == 'cls':
-        return '[' + ('^' if t[1] else '') + ''.join(x[1] if x[0] == 'c' else x[1] + '-' + x[2] for x in t[2]) + ']'
+        return '[' + ('^' if t[1] else '') + ''.join(show_item(x) for x in t[2]) + ']'
     if k == 'grp': return '(' + show(t[1]) + ')'
     if k == 'alt': return show(t[1]) + '|' + show(t[2])
     if k == 'cat':
@@ -132,7 +153,13 @@ def parse_ere(p):
             if peek() == '^': neg = True; pos[0] += 1
             j = pos[0]
             if peek() == ']': pos[0] += 1
-            while peek() is not None and peek() != ']': pos[0] += 1
+            while peek() is not None and peek() != ']':
+                if p.startswith('[:', pos[0]):
+                    e = p.find(':]', pos[0] + 2)
+                    if e < 0: raise ValueError("ECTYPE")
+                    pos[0] = e + 2
+                else:
+                    pos[0] += 1
             if peek() is None: raise ValueError("EBRACK")
             spec = p[j:pos[0]]; pos[0] += 1
             return cls(neg, spec)
@@ -181,6 +208,9 @@ class PM:
         for it in items:
             if it[0] == 'c':
                 hit = self.ceq(it[1], d)
+            elif it[0] == 'n':
+                f = CCLASS[it[1]]
+                hit = f(d) or (self.ic and (f(d.lower()) or f(d.upper())))
             else:
                 hit = it[1] <= d <= it[2] or (self.ic and (it[1] <= d.lower() <= it[2] or it[1] <= d.upper() <= it[2]))
             if hit: break
@@ -212,6 +242,14 @@ class PM:
         if op == 'chr': return (i + 1,) if i < n and self.ceq(t[1], self.s[i]) else ()
         if op == 'any': return (i + 1,) if i < n else ()
         if op == 'cls': return (i + 1,) if i < n and self.chas(t[1], t[2], self.s[i]) else ()
+        if op == 'nset':       # TRE's literal ranges of a negated bracket (case variants already inside) minus negated classes
+            if i >= n: return ()
+            d = self.s[i]
+            if not any(lo <= ord(d) <= hi for lo, hi in t[1]): return ()
+            for nm in t[2]:
+                f = CCLASS[nm]
+                if f(d) or (self.ic and (f(d.lower()) or f(d.upper()))): return ()
+            return (i + 1,)
         if op == 'bol': return (i,) if i == 0 and not self.nb else ()
         if op == 'eol': return (i,) if i == n else ()
         if op == 'grp': return self.ends(t[1], i)
@@ -246,7 +284,7 @@ class PM:
         self.memo[k] = frozenset()
         op = t[0]
         out = set()
-        if op in ('chr', 'any', 'cls'): out = {i}
+        if op in ('chr', 'any', 'cls', 'nset'): out = {i}
         elif op == 'grp': out = set(self.alive(t[1], i))
         elif op == 'cat':
             out = set(self.alive(t[1], i))
@@ -291,18 +329,70 @@ def _asserts(E):
     return r
 
 
-def _expand(t):
-    """bounded repeats as tre_expand_ast builds them; result uses ('it', x, min, max) for the remaining iterations"""
+_CHAR_MAX = 0x10FFFF
+
+
+def tre_negated_set(items, icase, fixed, tie):
+    """the literal ranges tre_parse_bracket builds for a NEGATED bracket: the items (plus, under IGNORECASE, the runs of
+    opposite-case counterparts) sorted by lower bound, then the gaps between them.  `fixed=False` reproduces the code
+    as it was: on an overlapping item only `curr_max` is advanced, `curr_min` is not, so the next gap (or the final
+    [curr_min, MAX]) starts inside an excluded item.  `tie`: order of items with the same lower bound (qsort)."""
+    lit = []
+    for it in items:
+        if it[0] == 'n': continue
+        lo, hi = (ord(it[1]), ord(it[1])) if it[0] == 'c' else (ord(it[1]), ord(it[2]))
+        lit.append((lo, hi))
+        if icase:
+            m = lo
+            while m <= hi:
+                if 97 <= m <= 122 or 65 <= m <= 90:
+                    low = 97 <= m <= 122
+                    flip = (lambda c: c - 32) if low else (lambda c: c + 32)
+                    same = (lambda c: 97 <= c <= 122) if low else (lambda c: 65 <= c <= 90)
+                    cmin = ccurr = flip(m); m += 1
+                    while same(m) and flip(m) == ccurr + 1 and m <= hi:
+                        ccurr = flip(m); m += 1
+                    lit.append((cmin, ccurr))
+                else:
+                    m += 1
+    lit.sort(key=(lambda x: (x[0], x[1])) if tie == 'asc' else (lambda x: (x[0], -x[1])))
+    out = []
+    cmin = cmax = 0
+    for lo, hi in lit:
+        if lo < cmax:
+            cmax = max(hi + 1, cmax)
+            if fixed: cmin = cmax
+        else:
+            cmax = lo - 1
+            if cmax >= cmin: out.append((cmin, cmax))
+            cmin = cmax = hi + 1
+    out.append((cmin, _CHAR_MAX))
+    return tuple(out)
+
+
+def _expand(t, o=None, inexp=False):
+    """bounded repeats as tre_expand_ast builds them; result uses ('it', x, min, max) for the remaining iterations.
+    o = dict(ic=, rules=, tie=): with rule 'overlap' a negated bracket becomes the ('nset', ranges, negated class
+    names) TRE really builds; with rule 'negcopy' the negated class names are dropped inside an expanded repeat
+    (tre_copy_ast did not copy `neg_classes`)."""
     k = t[0]
+    if k == 'cls' and o and t[1]:
+        names = tuple(it[1] for it in t[2] if it[0] == 'n')
+        drop = 'negcopy' in o['rules'] and inexp and names
+        if 'overlap' in o['rules'] or drop:
+            return ('nset', tre_negated_set(t[2], o['ic'], 'overlap' not in o['rules'], o['tie']), () if drop else names)
+        return t
     if k in ('emp', 'chr', 'any', 'cls', 'bol', 'eol'): return t
-    if k == 'grp': return _expand(t[1])
-    if k in ('cat', 'alt'): return (k, _expand(t[1]), _expand(t[2]))
-    if k == 'star': return ('it', _expand(t[1]), 0, -1)
-    if k == 'plus': return ('it', _expand(t[1]), 1, -1)
-    if k == 'opt': return ('it', _expand(t[1]), 0, 1)
-    x, m, n = _expand(t[1]), t[2], (-1 if t[3] is None else t[3])
+    if k == 'grp': return _expand(t[1], o, inexp)
+    if k in ('cat', 'alt'): return (k, _expand(t[1], o, inexp), _expand(t[2], o, inexp))
+    if k == 'star': return ('it', _expand(t[1], o, inexp), 0, -1)
+    if k == 'plus': return ('it', _expand(t[1], o, inexp), 1, -1)
+    if k == 'opt': return ('it', _expand(t[1], o, inexp), 0, 1)
+    m, n = t[2], (-1 if t[3] is None else t[3])
     if m == 0 and n == 0: return EMP          # tre-parse.c: x{0} becomes an EMPTY literal
-    if not (m > 1 or n > 1): return ('it', x, m, n)
+    exp = m > 1 or n > 1
+    x = _expand(t[1], o, inexp or exp)
+    if not exp: return ('it', x, m, n)
     seq1 = None
     for _ in range(m): seq1 = x if seq1 is None else ('cat', seq1, x)
     seq2 = None
@@ -321,7 +411,7 @@ def _EN(t):
     """(E, N): E = assertion set of the one empty path TRE keeps (None: not nullable); N = tree for the non-empty matches"""
     k = t[0]
     if k == 'emp': return (frozenset(), None)
-    if k in ('chr', 'any', 'cls'): return (None, t)
+    if k in ('chr', 'any', 'cls', 'nset'): return (None, t)
     if k in ('bol', 'eol'): return (frozenset([k]), None)
     if k == 'cat':
         (ex, nx), (ey, ny) = _EN(t[1]), _EN(t[2])
@@ -341,14 +431,20 @@ def _EN(t):
     raise ValueError(k)
 
 
-def tre_view(t):
-    E, N = _EN(_expand(t))
+def tre_view(t, o=None):
+    E, N = _EN(_expand(t, o))
     r = _alt(_asserts(E), N)
     return NONE if r is None else r
 
 
 def has_anchor(t):
     return t[0] in ('bol', 'eol') or any(has_anchor(x) for x in t[1:] if isinstance(x, tuple) and x and isinstance(x[0], str) and x[0] not in ('c', 'r'))
+
+
+def has_negated_bracket(t):
+    if t[0] == 'cls': return bool(t[1])
+    return any(has_negated_bracket(x) for x in t[1:3] if isinstance(x, tuple) and x and x[0] in
+               ('cls', 'cat', 'alt', 'star', 'plus', 'opt', 'rep', 'grp'))
 
 
 def glibc_known(t, inrep=False):
@@ -418,6 +514,44 @@ ATOMS = [('chr', 'a'), ('chr', 'b'), ANY, BOL, EOL, EMP, cls(False, 'ab'), cls(T
 UNARY = ['star', 'plus', 'opt', 'grp', ('rep', 2, 2), ('rep', 1, 2), ('rep', 0, 2), ('rep', 2, None)]
 FACTORS = ['a', 'b', '.', 'a*', 'b*', 'a+', 'a?', '(a|b)', '(a|ab)', '(ab|a)', '(a|b)*', '(ab)*', '(b|)', '(a|)',
            '(|a)', 'a{2}', '(a|ab)*', '(a*)*', '[ab]', '(a|ba)', '$', '^', '(a|b$)', '(^a|b)']
+
+
+BRACKET_ALPHA = "aAbBcCdDzZ"
+BRACKET_ITEMS = ['a', 'b', 'c', 'd', 'B', 'D', 'a-b', 'b-c', 'a-c', 'b-d', 'c-d', 'b-e', 'b-b', 'A-B', 'B-C', 'A-C', 'B-D']
+BRACKET_CONTEXTS = [
+    ('k', lambda b: b),
+    ('k+', lambda b: ('plus', b)),
+    ('^k*$', lambda b: ('cat', BOL, ('cat', ('star', b), EOL))),
+    ('k{2}z', lambda b: ('cat', ('rep', b, 2, 2), ('chr', 'z'))),
+]
+
+
+def bracket_atoms():
+    """every bracket expression with one item or an (unordered) pair of distinct items, plain and negated"""
+    out = []
+    for n in (1, 2):
+        for combo in itertools.combinations(BRACKET_ITEMS, n):
+            for neg in (False, True):
+                out.append(cls(neg, ''.join(combo)))
+    return out
+
+
+NAMED_CONTEXTS = [
+    ('k', lambda b: b),
+    ('k{2}', lambda b: ('rep', b, 2, 2)),
+    ('(kz){1,2}', lambda b: ('rep', ('grp', ('cat', b, ('chr', 'z'))), 1, 2)),
+    ('^(k)*$', lambda b: ('cat', BOL, ('cat', ('star', ('grp', b)), EOL))),
+    ('(k?a){2,}', lambda b: ('rep', ('grp', ('cat', ('opt', b), ('chr', 'a'))), 2, None)),
+]
+
+
+def named_bracket_atoms():
+    out = []
+    for nm in sorted(CCLASS):
+        for extra in ('', 'a', 'z', '1'):
+            for neg in (False, True):
+                out.append(cls(neg, '[:%s:]%s' % (nm, extra)))
+    return out
 
 
 def trees_by_size(maxsize, atoms=ATOMS, unary=UNARY):
@@ -656,11 +790,24 @@ def judge(tree, icase, notbol, subj, res, lean):
         if ct is not None and (pred_t is None or ct[0] < pred_t[0] or (ct[0] == pred_t[0] and ct[1] > pred_t[1])):
             auto_t = ct
     auto = fmt(auto_t)
+    negs = has_negated_bracket(tree)
+    keep = []          # PM memoises by id(): keep the rewritten trees alive while pm is in use
     for e in ENGINES:
         v = res[e]
         if v == py: continue
         sig = None
-        if v == auto:
+        if v != auto and negs:
+            # bracket defects of the compile stage (same answer from every engine): try TRE's real negated sets
+            for rules, name in ((('overlap',), 'tre-negated-bracket-overlap'), (('overlap', 'negcopy'), 'tre-copy-neg-classes')):
+                for tie in ('asc', 'desc'):
+                    tv2 = tre_view(tree, dict(ic=bool(icase), rules=rules, tie=tie))
+                    keep.append(tv2)
+                    if fmt(pm.ll(tv2)) == v and res['bt'] == res['bb'] == res['pa']:
+                        sig = name; break
+                if sig: break
+        if sig:
+            pass
+        elif v == auto:
             sig = 'tre-repeat-position-collision' if auto != pred else 'tre-empty-path-anchor'
         elif e in ('bt', 'bb') and v == '-' and auto_t is not None and auto_t[0] >= 1 and \
                 (not exact or any(max(pm.alive(tv, p), default=-1) >= n - 1 for p in range(auto_t[0]))):
@@ -679,6 +826,8 @@ SIGTEXT = {
     'tre-empty-path-anchor': "both TRE engines skip a nullable sub-expression along one fixed empty path and inherit its ^/$ assertions (tre_match_empty)",
     'bt-restart-at-end': "backtracking matcher gives up instead of trying later start positions when the last failed path ended at the end of the subject",
     'pa-later-start': "parallel matcher lets a thread that started later override an already found leftmost match",
+    'tre-negated-bracket-overlap': "a negated bracket whose items overlap ([^a-cb-e], [^BB-C]) accepts characters of the overlapping item (tre_parse_bracket advances curr_max but not curr_min)",
+    'tre-copy-neg-classes': "a negated bracket with a named class loses the class in the copies made for x{m,n} ([^[:digit:]]{2} matches \"12\"): tre_copy_ast does not copy neg_classes",
     'tre-repeat-position-collision': "expanding x{m,n} gives two literals the same position number (x{m,n} under two iterations, or x{0} inside an expanded repeat); the automaton accepts strings the pattern does not",
 }
 
@@ -749,35 +898,64 @@ def nullable(t):
     return True
 
 
-def sim_gsub(s, mfun):
-    o, out, cnt = 0, '', 0
-    while o <= len(s):
-        m = mfun(o)
-        if m is None: break
-        st, ln = m
-        if ln == 0: return None
-        out += s[o:o + st] + '<' + s[o + st:o + st + ln] + '>'
-        o += st + ln; cnt += 1
-    return "%d %s" % (cnt, out + s[o:])
+def sim_subst(s, mfun, limit):
+    """sub()/gsub() as fnc.c __substitute_oocs/__substitute_bcs do it, with `mfun(o)` = match on the suffix s[o:]
+    (NOTBOL when o > 0): an empty match right at the end of the previous match is not a match (one character is
+    copied and skipped); after an empty match one character is copied.  Replacement text is "<&>"."""
+    n, o, out, cnt, pm_end = len(s), 0, '', 0, None
+    while o <= n:
+        m = mfun(o) if cnt < limit else None
+        if m is None:
+            out += s[o:]; break
+        a, ln = o + m[0], m[1]
+        if not (ln == 0 and pm_end is not None and a == pm_end):
+            out += s[o:a] + '<' + s[a:a + ln] + '>'
+            cnt += 1; o = a + ln; pm_end = a + ln
+            if ln != 0: continue
+        if o < n: out += s[o]
+        o += 1
+    return "%d %s" % (cnt, out)
 
 
 def sim_split(s, mfun):
-    if s == '': return "0"
-    o, parts = 0, []
-    while True:
-        m = mfun(o) if o <= len(s) else None
-        if m is None:
-            parts.append(s[o:]); break
-        st, ln = m
-        if ln == 0: return None
-        parts.append(s[o:o + st]); o += st + ln
-    return "%d|%s" % (len(parts), '|'.join(parts))
+    """split()/regex FS as misc-imp.h tokenize_xchars_by_rex + the callers' loop do it: the separator is the leftmost-
+    longest match in the rest; while that match is empty the search restarts one character later; a separator at
+    the very end gives a trailing empty field; an empty subject gives no field"""
+    n = len(s)
+
+    def tok(o):
+        cur, m = o, None
+        while cur < n:
+            m = mfun(cur)
+            if m is None: return s[o:], None
+            if m[1] == 0:
+                cur += 1; m = None; continue
+            break
+        if m is None: return s[o:], None
+        a = cur + m[0]
+        return s[o:a], a + m[1]
+    o, flds = 0, []
+    while o is not None:
+        t, nxt = tok(o)
+        if not flds and nxt is None and t == '': break
+        flds.append(t); o = nxt
+    return '|'.join(["%d" % len(flds)] + flds)
+
+
+LANG_FIXED = [("a(a|ab)$", "aaa", 0), ("(ab)*b", "ab", 0), ("a|b{2}", "ba", 0), ("ab*(a|ba)", "aaba", 0), ("b+", "abbab", 0),
+              ("(a|ab)(b|bb)", "xabbb", 0), ("b*", "abc", 0), ("b*", "abbcb", 0), ("a?", "baab", 0), ("(a|b*)", "abba", 0),
+              ("^", "ab", 0), ("$", "ab", 0), ("[a-c]+", "xyzQab", 1), ("[^a-c]", "aXbYc", 1), ("[a]", "BaAb", 1)]
+LANG_KINDS = {'T': '~ / match()', 'U': 'sub()', 'G': 'gsub()', 'S': 'split()', 'F': 'regex FS'}
 
 
 def language_level(ctx, libdir, exe, pats, stats):
-    """every sample: ask the harness (bt) and the Lean spec for the match on every suffix, simulate the awk function
-    with both; the CLI must equal the spec simulation; if it only equals the bt simulation the deviation is the
-    engine's (judged, with signature, by the pair stream) — anything else is a wrapper/user problem."""
+    """every sample (nullable patterns included) on BOTH the character-string and the @b"..." byte-string variant of
+    the subject: ~ (regex literal and dynamic regex), match()/RSTART/RLENGTH, sub(), gsub(), split(), regex FS (FS:
+    character strings only).  The harness (bt for character strings, bb for byte strings) and the Lean spec are asked
+    for the match on every suffix and the awk function is simulated with both; the CLI must equal the simulation
+    with the spec's answers; if it only equals the simulation with the engine's own answers the deviation is the
+    engine's (judged, with signature, by the pair stream) — anything else is a wrapper/user problem.  The two
+    variants must also agree with each other."""
     hawk = os.path.join(ctx.scratch, "hawk")      # private copy: the shared build cache may be pruned while we run
     if not os.path.exists(hawk):
         import shutil
@@ -786,84 +964,94 @@ def language_level(ctx, libdir, exe, pats, stats):
     n = 70 if ctx.tier == "quick" else 500
     samples = []
     keys = list(pats)
-    fixed = [("a(a|ab)$", "aaa"), ("(ab)*b", "ab"), ("a|b{2}", "ba"), ("ab*(a|ba)", "aaba"), ("b+", "abbab"), ("(a|ab)(b|bb)", "xabbb")]
     for i in range(n):
-        if i < len(fixed):
-            p, s = fixed[i]; t = parse_ere(p)
+        if i < len(LANG_FIXED):
+            p, s, ic = LANG_FIXED[i]; t = parse_ere(p)
         else:
             p = rng.choice(keys); t = pats[p]
             s = ''.join(rng.choice("ab" if rng.random() < 0.8 else "abA") for _ in range(rng.randrange(0, 8)))
-        if p == '' or '/' in p or '\\' in p: continue
-        samples.append((p, t, s, rng.random() < 0.25))
+            ic = int(rng.random() < 0.25)
+        if p == '' or '/' in p or '\\' in p or '"' in p: continue
+        samples.append((p, t, s, ic))
     # suffix queries
     cases = []
     for p, t, s, ic in samples:
         for o in range(len(s) + 1):
-            cases.append(Case(p, t, int(ic), "lang", notbol=int(o > 0), subj=s[o:]))
+            cases.append(Case(p, t, ic, "lang", notbol=int(o > 0), subj=s[o:]))
     out, crashes = run_both(ctx, exe, cases, workers=4)
     tab = {}
     for c, h, l in out:
         if h is None or l is None or h.startswith("CERR") or l.startswith("PERR"): continue
         cols = split_cols(h)
-        tab[(c.pat, c.icase, c.notbol, c.subj)] = (cols['bt'][0], l)
-    # one hawk program per IGNORECASE value
+        tab[(c.pat, c.icase, c.notbol, c.subj)] = {'spec': l, 'S': cols['bt'][0], 'B': cols['bb'][0]}
+    # one hawk program per IGNORECASE value; every sample in both variants
     evals = 0
     for icv in (0, 1):
-        sub = [x for x in samples if int(x[3]) == icv]
+        sub = [x for x in samples if x[3] == icv]
         if not sub: continue
         stm = ["IGNORECASE=%d;" % icv]
         for k, (p, t, s, ic) in enumerate(sub):
-            stm.append('s="%s"; r=(s ~ /%s/); d=(s ~ "%s"); m=match(s, /%s/); printf("%%d T %%d %%d %%d %%d %%d\\n", %d, r, d, m, RSTART, RLENGTH);' % (s, p, p, p, k))
-            if not nullable(t):
-                stm.append('u=s; g=gsub(/%s/, "<&>", u); printf("%%d G %%d %%s\\n", %d, g, u);' % (p, k))
-                stm.append('c=split(s, arr, /%s/); o=c; for(i=1;i<=c;i++) o=o "|" arr[i]; printf("%%d S %%s\\n", %d, o);' % (p, k))
-                if len(p) > 1:
-                    stm.append('FS="%s"; $0=s; o=NF; for(i=1;i<=NF;i++) o=o "|" $i; printf("%%d F %%s\\n", %d, o); FS=" ";' % (p, k))
+            for v, lit in (('S', '"%s"' % s), ('B', '@b"%s"' % s)):
+                tag = "%d%s" % (k, v)
+                stm.append('s=%s; r=(s ~ /%s/); d=(s ~ "%s"); m=match(s, /%s/); printf("%s T %%d %%d %%d %%d %%d\\n", r, d, m, RSTART, RLENGTH);' % (lit, p, p, p, tag))
+                stm.append('u=s; g=sub(/%s/, "<&>", u); printf("%s U %%d %%s\\n", g, u);' % (p, tag))
+                stm.append('u=s; g=gsub(/%s/, "<&>", u); printf("%s G %%d %%s\\n", g, u);' % (p, tag))
+                stm.append('c=split(s, arr, /%s/); o=c; for(i=1;i<=c;i++) o=o "|" arr[i]; printf("%s S %%s\\n", o);' % (p, tag))
+                if v == 'S' and len(p) > 1:
+                    stm.append('FS="%s"; $0=s; o=NF; for(i=1;i<=NF;i++) o=o "|" $i; printf("%s F %%s\\n", o); FS=" ";' % (p, tag))
         prog = "BEGIN { " + "\n".join(stm) + " }"
-        rc, o, e = C.sh(["timeout", "-s", "KILL", "60", hawk, prog], timeout=90, env=C.ASAN_ENV)
+        pf = os.path.join(ctx.scratch, "lang%d.hawk" % icv)
+        with open(pf, "w") as f: f.write(prog + "\n")
+        rc, o, e = C.sh(["timeout", "-s", "KILL", "300", hawk, "-f", pf], timeout=330, env=C.ASAN_ENV)
         st = C.classify_rc(rc, e.decode(errors="replace"))
         if st != "ok":
             ctx.problem("impl", "hawk CLI failed on the regex sample program (%s): %s" % (st, e.decode(errors="replace")[-300:]),
-                        "# hawk '<prog>'\n" + prog + "\n", found_input=True)
+                        "# hawk -f <this program>\n" + prog + "\n", found_input=True)
             continue
         got = {}
         for ln in o.decode(errors="replace").split("\n"):
             w = ln.split(" ", 2)
-            if len(w) >= 3 and w[0].isdigit(): got[(int(w[0]), w[1])] = w[2]
+            if len(w) >= 3 and w[0][:-1].isdigit(): got[(w[0], w[1])] = w[2]
         for k, (p, t, s, ic) in enumerate(sub):
+            if (p, icv, 0, s) not in tab: continue
+
             def mk(which):
                 def mfun(o):
                     r = tab.get((p, icv, int(o > 0), s[o:]))
                     return None if r is None else unfmt(r[which])
                 return mfun
-            if (p, icv, 0, s) not in tab: continue
-            exp = {}
-            for which, name in ((1, 'spec'), (0, 'bt')):
+
+            def expect(which):
                 m = mk(which)(0)
-                tline = "%d %d %d %d %d" % ((1, 1, m[0] + 1, m[0] + 1, m[1]) if m else (0, 0, 0, 0, -1))
-                e1 = {'T': tline}
-                if not nullable(t):
-                    e1['G'] = sim_gsub(s, mk(which)); e1['S'] = sim_split(s, mk(which))
-                    if len(p) > 1:
-                        f = sim_split(s, mk(which))
-                        e1['F'] = f
-                exp[name] = e1
-            for kind in ('T', 'G', 'S', 'F'):
-                if kind not in exp['spec'] or exp['spec'][kind] is None: continue
-                g = got.get((k, kind))
-                evals += 1
-                stats['lang_' + kind] = stats.get('lang_' + kind, 0) + 1
-                want = exp['spec'][kind]
-                if kind in ('S', 'F'):
-                    want = want.replace("|", "|")
-                if g == want: continue
-                if g == exp['bt'].get(kind):
-                    stats['lang_engine_deviation'] = stats.get('lang_engine_deviation', 0) + 1
-                    continue   # the engine's deviation on one of the suffix pairs; those pairs are judged below
-                ctx.problem("impl", "language level %s: pattern /%s/ subject %r IGNORECASE=%d: hawk printed %r, leftmost-longest gives %r (with the engine's own answers: %r)" % (
-                    {'T': '~ / match()', 'G': 'gsub()', 'S': 'split()', 'F': 'regex FS'}[kind], p, s, icv, g, want, exp['bt'].get(kind)),
-                    "# hawk program (sanitized CLI)\n" + prog + "\n", found_input=True)
-                return evals, cases
+                e1 = {'T': "%d %d %d %d %d" % ((1, 1, m[0] + 1, m[0] + 1, m[1]) if m else (0, 0, 0, 0, -1)),
+                      'U': sim_subst(s, mk(which), 1), 'G': sim_subst(s, mk(which), 1 << 60), 'S': sim_split(s, mk(which))}
+                if len(p) > 1: e1['F'] = e1['S']
+                return e1
+            want = expect('spec')
+            seen = {}
+            for v in ('S', 'B'):
+                own = expect(v)
+                for kind in ('T', 'U', 'G', 'S', 'F'):
+                    if kind not in want or (kind == 'F' and v == 'B'): continue
+                    g = got.get(("%d%s" % (k, v), kind))
+                    seen[(v, kind)] = (g, own[kind])
+                    evals += 1
+                    _bump(stats, 'lang_%s_%s' % (kind, 'str' if v == 'S' else 'bytes'))
+                    if g == want[kind]: continue
+                    if g == own[kind]:
+                        _bump(stats, 'lang_engine_deviation')
+                        continue   # the engine's deviation on one of the suffix pairs; those pairs are judged below
+                    subj_lit = ('"%s"' if v == 'S' else '@b"%s"') % s
+                    ctx.problem("impl", "language level %s on %s: pattern /%s/ IGNORECASE=%d: hawk printed %r, leftmost-longest gives %r (with the engine's own answers: %r)" % (
+                        LANG_KINDS[kind], subj_lit, p, icv, g, want[kind], own[kind]),
+                        "# hawk program (sanitized CLI); look for the output line tagged %d%s %s\n" % (k, v, kind) + prog + "\n", found_input=True)
+                    return evals, cases
+            for kind in ('T', 'U', 'G', 'S'):
+                (gs, os_), (gb, ob) = seen.get(('S', kind), (None, None)), seen.get(('B', kind), (None, None))
+                if gs != gb and os_ == ob:
+                    ctx.problem("impl", "language level %s: pattern /%s/ subject %r IGNORECASE=%d: the character-string variant printed %r, the byte-string variant %r" % (
+                        LANG_KINDS[kind], p, s, icv, gs, gb), "# hawk program (sanitized CLI); output lines tagged %dS / %dB %s\n" % (k, k, kind) + prog + "\n", found_input=True)
+                    return evals, cases
     return evals, cases
 
 
@@ -905,6 +1093,24 @@ def build_cases(ctx):
             cases.append(Case(pp, tt, 1, "exh-icase", alpha="aAb", maxlen=len_ic))
             if 'A' in pp:
                 cases.append(Case(pp, tt, 0, "exh-case", alpha="aAb", maxlen=len_ic))
+    # bracket expressions x case x letters outside the bracket on both sides: every bracket of one or two items
+    # (single letters and ranges over a..e in both cases, negated or not) in a few contexts, with and without
+    # IGNORECASE, on every subject up to length 2 over {a,A,b,B,c,C,d,D,z,Z} (a fold that leaks beyond the item,
+    # e.g. [a] accepting "B" under IGNORECASE, needs a subject letter of the other case later in the alphabet)
+    for br in bracket_atoms():
+        for ctxk, mk in BRACKET_CONTEXTS:
+            t = mk(br)
+            pp = show(t)
+            for ic in (0, 1):
+                cases.append(Case(pp, t, ic, "brackets", alpha=BRACKET_ALPHA, maxlen=2 if ctxk != 'x3' else 3))
+    # named classes [:digit:] [:alpha:] [:upper:] [:lower:] [:alnum:], alone or with a single character, negated or
+    # not, bare and inside repeats that TRE expands into copies, on every subject up to length 3 over {a,B,1,z}
+    for br in named_bracket_atoms():
+        for ctxk, mk in NAMED_CONTEXTS:
+            t = mk(br)
+            pp = show(t)
+            for ic in (0, 1):
+                cases.append(Case(pp, t, ic, "named", alpha="aB1z", maxlen=3))
     # products of factors (the family in which the parallel matcher's defect shows)
     fl = 5
     prods = [''.join(x) for n in (1, 2) for x in itertools.product(FACTORS, repeat=n)]
@@ -1123,8 +1329,8 @@ def run(ctx):
     stats['patterns'] = len(cases)
     samples = [c.line.replace("\t", "<TAB>") for c in (cases[len(cases) // 3], cases[len(cases) // 2], cases[-1], cases[-7])]
     rule = ("pairs = (pattern, subject, IGNORECASE, NOTBOL): corpus + every ERE tree of size <= %d over atoms {a,b,.,^,$,empty,[ab],[^a]} and operators {*,+,?,(),{2},{1,2},{0,2},{2,},concat,|} x every subject over {a,b} up to length %d x NOTBOL; "
-            "IGNORECASE/case-sensitivity runs over {a,A,b}; products of <= 3 of %d hand-picked factors; seeded random trees of size 5-12 (with {m,n}, ranges, A) on short exhaustive and longer random subjects; "
-            "language level ~, match()/RSTART/RLENGTH, gsub, split, regex FS through the sanitized CLI. Each pair: bt/bb/pa engines vs python reference vs glibc vs Lean matchLL. "
+            "IGNORECASE/case-sensitivity runs over {a,A,b}; every bracket of one or two items (letters and ranges over a..e in both cases, negated or not) in 4 contexts x IGNORECASE x every subject up to length 2 over {a,A,b,B,c,C,d,D,z,Z}; named classes alone or with one character, negated or not, bare and inside expanded repeats, over {a,B,1,z}; products of <= 3 of %d hand-picked factors; seeded random trees of size 5-12 (with {m,n}, ranges, A) on short exhaustive and longer random subjects; "
+            "language level ~ (literal and dynamic regex), match()/RSTART/RLENGTH, sub, gsub, split on BOTH the character-string and the @b byte-string variant of each subject (nullable patterns included), regex FS, through the sanitized CLI. Each pair: bt/bb/pa engines vs python reference vs glibc vs Lean matchLL. "
             "distinct_nontrivial = pairs whose leftmost-longest match does not start at 0 or is a proper non-empty prefix of the subject" % (
                 (4, 5, len(FACTORS)) if ctx.tier == "quick" else (5, 5, len(FACTORS)))) + ("" if ctx.tier == "quick" else "; thorough also: size <= 4 on subjects up to length 6")
     return C.finish(ctx, [proof], evaluations, nontriv, rule,
@@ -1132,7 +1338,7 @@ def run(ctx):
                     trusted=["TRE (tre-parse.c, tre-compile.c, tre-match-bt.c, tre-match-pa.c) is NOT modelled: the implementation claim is the bounded exhaustive comparison above, not a proof",
                              "ERE text -> Re parser in Drv/Rex.lean is unverified (cross-checked by the python parser/reference matcher and glibc on every pair)",
                              "python reference matcher and tre_view (TRE's empty-path rule) in vlib/props/c06.py decide signatures"],
-                    assumptions=["ASCII subjects without NUL or newline (REG_NEWLINE is never set by hawk); case folding = ASCII tolower",
+                    assumptions=["ASCII subjects without NUL or newline (REG_NEWLINE is never set by hawk); case folding = ASCII tolower; named classes alpha/digit/upper/lower/alnum with their ASCII meaning",
                                  "REXBOUND trait on (default): {m,n} is an interval", "sub-match offsets are not compared (only the overall match)"])
 
 
